@@ -53,6 +53,14 @@ HOOK_FUNCS = {
 
 
 MSGS = ["marker", "empty", "noargs", "multiline", "blankfirst", "badstr"]
+# exceptions that are no `Exception`: the user's Ctrl-C, sys.exit() in an imported module.  _safe_call / _try_import let
+# them through by design; they are no internal error of pyflyby
+BASE_EXC = ["KeyboardInterrupt", "SystemExit"]
+
+
+def is_interrupt(fired):
+    """trace entry value: an injected or natural BaseException"""
+    return bool(fired) and fired.split(":")[-1] in BASE_EXC
 
 
 def make_exception(cls, msg, marker):
@@ -183,7 +191,7 @@ def install_injectors(inj):
         pos = len(inj.log) - 1
         try:
             r = builtins.exec(stmt, ns, *a)
-        except Exception as e:
+        except BaseException as e:          # incl. KeyboardInterrupt / SystemExit raised by the imported module
             if not getattr(e, "_verif_injected", False):
                 inj.log[pos][3] = "natural:" + type(e).__name__
             raise
@@ -273,6 +281,17 @@ def global_state():
     )
 
 
+def _call_from_host(host, fn, *args, **kw):
+    """call into IPython from the host program's frame.  host "noname": the host code runs in a namespace without
+    `__name__` (an embedding application's script runner doing `exec(src, {})`)"""
+    if host == "noname":
+        g = {"fn": fn, "args": args, "kw": kw}
+        exec("out = fn(*args, **kw)", g)
+        assert "__name__" not in g
+        return g["out"]
+    return fn(*args, **kw)
+
+
 def run_c13(job):
     ip, app = G["ip"], G["app"]
     import pyflyby
@@ -291,10 +310,11 @@ def run_c13(job):
          ip.user_ns)
     inj = Injected(job.get("faults", []) if pf else [])
     obs = dict(config=G["config"], pf=pf, cells=[])
+    host = job.get("host")
     if pf:
         with cap:
             try:
-                pyflyby.enable_auto_importer()
+                _call_from_host(host, pyflyby.enable_auto_importer)
                 esc = None
             except BaseException as e:
                 esc = type(e).__name__ + ": " + str(e)[:200]
@@ -326,6 +346,9 @@ def run_c13(job):
                         setattr(builtins, k, v)
                         lent.append(k)
         ns_before = _ns_view(ip.user_ns)
+        # shells whose user namespace is not the globals of their module (config "usermod"): the module's globals apart
+        distinct = ip.user_global_ns is not ip.user_ns
+        gns_before = _ns_view(ip.user_global_ns) if distinct else {}
         calls_before = dict(inj.ncalls)
         n_imported_before = len(inj.imported)
         r = dict(kind=cell["kind"], text=cell["text"], level_before=G.get("c13_level"))
@@ -338,12 +361,18 @@ def run_c13(job):
                 elif cell["kind"] == "foreign":
                     gen_c14.do_foreign(cell["text"])     # a third party registers / rebinds hooks
                 elif cell["kind"] == "run":
-                    res = ip.run_cell(cell["text"], store_history=False)
+                    if cell.get("ck") == "autocall_on":
+                        ip.autocall = 1             # the user has typed `%autocall 1`
+                    try:
+                        res = _call_from_host(host, ip.run_cell, cell["text"], store_history=False)
+                    finally:
+                        if cell.get("ck") == "autocall_on":
+                            ip.autocall = 0
                     r["result"] = repr(res.result)[:200]
                     for nm, e in (("err", res.error_in_exec), ("err_before", res.error_before_exec)):
                         r[nm] = None if e is None else [type(e).__name__, str(e)[:200]]
                 elif cell["kind"] == "complete":
-                    text, matches = ip.complete(cell["text"])
+                    text, matches = _call_from_host(host, ip.complete, cell["text"])
                     r["matches"] = sorted(matches)[:60]
                 else:
                     raise ValueError(cell["kind"])
@@ -359,6 +388,9 @@ def run_c13(job):
         ns_after = _ns_view(ip.user_ns)
         r["ns_new"] = {k: v for k, v in ns_after.items() if ns_before.get(k) != v}
         r["ns_gone"] = sorted(k for k in ns_before if k not in ns_after)
+        gns_after = _ns_view(ip.user_global_ns) if distinct else {}
+        r["gns_new"] = {k: v for k, v in gns_after.items() if gns_before.get(k) != v}
+        r["gns_gone"] = sorted(k for k in gns_before if k not in gns_after)
         r["gstate"] = global_state()
         r["hlnames"] = gen_c14.hook_names()
         if pf:
@@ -394,6 +426,8 @@ def gen_cell(rng, k, mods_dir):
         ("run_plain", 1), ("debug", 1), ("complete_global", 3), ("complete_attr", 3), ("complete_attr_bound", 1),
         ("two_known", 1), ("autocall", 1), ("run_odd", 3), ("run_odd_needs", 1),
         ("target", 8), ("import_local", 3), ("probe", 1), ("probe_known", 2),
+        # round 4: the other triggers of the _ofind hook; auto-imports interrupted by the imported module itself
+        ("pinfo_fn", 2), ("pinfo2", 1), ("autocall_on", 3), ("known_int", 2), ("known_exit", 1),
     ]
     kind = rng.choices([a for a, _ in kinds], weights=[b for _, b in kinds])[0]
     return make_cell(kind, i, k, mods_dir)
@@ -417,6 +451,16 @@ def make_cell(kind, i, k, mods_dir):
         return run(f"zzq_bad_{i % gen_c14.N_BAD}.x")
     if kind == "pinfo":
         return run(f"zzq_mod_{i}.VALUE?")
+    if kind == "pinfo_fn":
+        return run(f"zzq_call_{k % gen_c14.N_CALL}?")
+    if kind == "pinfo2":
+        return run(f"zzq_fn_{i % gen_c14.N_FNS}??")
+    if kind == "autocall_on":
+        return run(f"zzq_call_{k % gen_c14.N_CALL} {k}, 'a'")       # with `%autocall 1`: -> zzq_call_k(k, 'a')
+    if kind == "known_int":
+        return run(f"zzq_int_{k % gen_c14.N_INT}.x")                # importing it raises KeyboardInterrupt
+    if kind == "known_exit":
+        return run(f"zzq_exit_{k % gen_c14.N_INT}.x")               # importing it calls sys.exit(3)
     if kind == "multi":
         return run(f"def zzq_f{k}():\n    return zzq_mod_{i}.VALUE\nzzq_f{k}()")
     if kind == "syntaxerr":
@@ -517,6 +561,8 @@ def gen_faults(rng, nmax=3):
                  persist=rng.random() < 0.4)
         if f["site"] == "modlist" and rng.random() < 0.4:
             f["exc"] = "KeyboardInterrupt"      # Ctrl-C during the slow first <TAB>
+        if f["site"] == "import_exec" and rng.random() < 0.45:
+            f["exc"] = rng.choice(BASE_EXC + ["KeyboardInterrupt"])     # Ctrl-C / sys.exit() during a (slow) import
         if rng.random() < 0.45:
             f["msg"] = rng.choice(MSGS[1:])
         out.append(f)
